@@ -407,8 +407,11 @@ def check_rs(world, case):
         if key not in r:
             bad.append(('readspec:%s:missing' % key, 'keys %s' % sorted(r)))
             return
+        tab = r[key]
+        # the property fixes the rows of every table column, not the container: dict of arrays, record array or Table
+        names = getattr(tab, 'colnames', None) or getattr(getattr(tab, 'dtype', None), 'names', None) or list(tab.keys())
         for name, kind, hc in cols:
-            if name not in r[key]:
+            if name not in names:
                 bad.append(('readspec:%s:column-missing' % key, name))
                 continue
             col = np.asarray(r[key][name])
